@@ -25,5 +25,6 @@ INVARIANT SegIndep
 INVARIANT OnlyValidReachHandler
 INVARIANT Progress
 PROPERTY TimeoutHarmless
+PROPERTY RefusalNotPreempted
 PROPERTY TimeoutAnswers
 CHECK_DEADLOCK FALSE
